@@ -88,3 +88,85 @@ def snapshot(objs, skip=()):
 def diff(a, b):
     keys = set(a) | set(b)
     return sorted(k for k in keys if a.get(k, '<absent>') != b.get(k, '<absent>'))
+
+
+# ------------------------------------------------------------------ process-wide state reset
+# Every path of an exploration is a re-execution from the start, and replays run in the master
+# process after other replays: anything the code under test keeps in module globals or class
+# attributes (caches, registries) must be put back to its import-time content before each run,
+# otherwise one path would see what another one left behind.
+
+import copy as _copy
+import nasim.scenarios as m_scenarios
+import nasim.scenarios.scenario as m_scenario
+import nasim.scenarios.loader as m_loader
+import nasim.scenarios.generator as m_generator
+import nasim.scenarios.host as m_host
+import nasim.scenarios.utils as m_sutils
+import nasim.scenarios.benchmark as m_bench
+import nasim.scenarios.benchmark.generated as m_bgen
+
+RESET_MODULES = MODULES + [m_scenarios, m_scenario, m_loader, m_generator, m_host, m_sutils, m_bench, m_bgen]
+
+
+def _capture():
+    base = {}
+    for m in RESET_MODULES:
+        for k, v in list(vars(m).items()):
+            if k.startswith('__'):
+                continue
+            if isinstance(v, (dict, list, set)):
+                try:
+                    base[(m, k)] = (v, _copy.deepcopy(v))
+                except Exception:
+                    pass
+        for cname, c in list(vars(m).items()):
+            if isinstance(c, type) and getattr(c, '__module__', '') == m.__name__:
+                for k, v in list(vars(c).items()):
+                    if k.startswith('__') or callable(v) or isinstance(v, (staticmethod, classmethod, property)):
+                        continue
+                    try:
+                        base[(c, k)] = (v, _copy.deepcopy(v))
+                    except Exception:
+                        pass
+    names = {}
+    for m in RESET_MODULES:
+        names[m] = set(vars(m).keys())
+    return base, names
+
+
+_BASE, _NAMES = _capture()
+
+
+def restore():
+    for (owner, k), (obj, snap) in _BASE.items():
+        cur = vars(owner).get(k, None) if not isinstance(owner, type) else owner.__dict__.get(k, None)
+        if isinstance(obj, dict):
+            obj.clear()
+            obj.update(_copy.deepcopy(snap))
+            if cur is not obj:
+                setattr(owner, k, obj)
+        elif isinstance(obj, list):
+            obj[:] = _copy.deepcopy(snap)
+            if cur is not obj:
+                setattr(owner, k, obj)
+        elif isinstance(obj, set):
+            obj.clear()
+            obj.update(_copy.deepcopy(snap))
+            if cur is not obj:
+                setattr(owner, k, obj)
+        else:
+            try:
+                if cur is not obj and cur != obj:
+                    setattr(owner, k, obj)
+            except Exception:
+                pass
+    # globals / class attributes created after import (a cache added by a changed tree is part of
+    # its import-time state; attributes created at run time are removed)
+    for m, known in _NAMES.items():
+        for k in list(vars(m).keys()):
+            if k not in known and not k.startswith('__') and isinstance(vars(m)[k], (dict, list, set)):
+                try:
+                    delattr(m, k)       # a mutable container created at run time
+                except Exception:
+                    pass
